@@ -507,6 +507,12 @@ func Go(site string, fn func()) {
 	r.mu.Unlock()
 	r.raceSpawn(p, t)
 	go r.body(t, fn)
+	if p != nil {
+		// a go statement is a point at which the spawning goroutine may be preempted: whether
+		// it goes on (to its next go statement, say) or the new goroutine runs first is the
+		// scheduler's choice
+		Yield(site)
+	}
 }
 
 // WrapGoErr wraps the function given to errgroup.Group.Go.
@@ -588,6 +594,24 @@ func Yield(site string) {
 		return
 	}
 	r.park(t, site, "yield")
+}
+
+// WaitGate parks the calling task outside the scheduler's reach until the gate is closed by
+// another task (a stub that is held up by something outside the library); once woken it
+// queues up for its turn like everybody else.
+func WaitGate(site string, gate <-chan struct{}) {
+	r := active()
+	if r == nil {
+		<-gate
+		return
+	}
+	if t := r.lookup(); t != nil {
+		r.mu.Lock()
+		t.site, t.kind = site, "stalled"
+		r.mu.Unlock()
+	}
+	<-gate
+	Yield(site)
 }
 
 // BlockForever parks the calling task where no one will ever wake it (a stub that stalls).
